@@ -1,4 +1,5 @@
 import I2P.Proofs.DataLemmas
+import I2P.Proofs.FixedLemmas
 /-! # C12 — Integer, Date and String primitives are exact inverses within their domain
 
 Property theorems only.  The model functions are the code-mirroring definitions of `I2P/Data.lean`
@@ -155,5 +156,36 @@ theorem string_read_sound (w s r : Bytes) (h : readStr w = (s, r, none)) :
       obtain ⟨rfl, rfl⟩ := h
       exact ⟨l, rest, rfl, hle, rfl, rfl, by simp⟩
     · simp at h
+
+/-! ### the fixed-width helpers (`data/encoding.go`: EncodeUint16/32/64, EncodeInt16/32/64 and their decoders) -/
+
+/-- `DecodeUintN(EncodeUintN(v)) = v` for every value of the width, in exactly `w` bytes, big-endian
+    (`Fixed.encodeUint` is by definition the big-endian `beEnc`) -/
+theorem fixed_unsigned_roundtrip (w v : Nat) (h : v < 256 ^ w) :
+    (Fixed.encodeUint w v).length = w ∧ Fixed.decodeUint (Fixed.encodeUint w v) = v ∧ beVal (Fixed.encodeUint w v) = v :=
+  ⟨Fixed.encodeUint_length w v, Fixed.decode_encodeUint w v h, Fixed.decode_encodeUint w v h⟩
+
+/-- every `w`-byte array is the encoding of the value it decodes to (no two arrays decode alike) -/
+theorem fixed_unsigned_decode_encode (b : Bytes) :
+    Fixed.encodeUint b.length (Fixed.decodeUint b) = b ∧ Fixed.decodeUint b < 256 ^ b.length :=
+  ⟨Fixed.encode_decodeUint b, Fixed.decodeUint_lt b⟩
+
+/-- the signed helpers are exact inverses on the whole two's-complement range −2^(8w−1) … 2^(8w−1)−1 -/
+theorem fixed_signed_roundtrip (w : Nat) (v : Int)
+    (hlo : -((256 ^ w : Nat) : Int) ≤ 2 * v) (hhi : 2 * v < ((256 ^ w : Nat) : Int)) :
+    (Fixed.encodeInt w v).length = w ∧ Fixed.decodeInt (Fixed.encodeInt w v) = v :=
+  ⟨Fixed.encodeUint_length w _, Fixed.decode_encodeInt w v hlo hhi⟩
+
+/-- … and in the other direction, with the decoded value inside that range -/
+theorem fixed_signed_decode_encode (b : Bytes) :
+    Fixed.encodeInt b.length (Fixed.decodeInt b) = b ∧
+    -((256 ^ b.length : Nat) : Int) ≤ 2 * Fixed.decodeInt b ∧ 2 * Fixed.decodeInt b < ((256 ^ b.length : Nat) : Int) :=
+  ⟨Fixed.encode_decodeInt b, Fixed.decodeInt_range b⟩
+
+/-- non-vacuity and the documented examples of `data/encoding.go` -/
+example : Fixed.encodeUint 2 1234 = [4, 210] ∧ Fixed.encodeUint 4 123456 = [0, 1, 226, 64] ∧
+    Fixed.decodeInt [251, 46] = -1234 ∧ Fixed.decodeInt [255, 254, 29, 192] = -123456 ∧
+    Fixed.decodeUint [0x80, 0, 0, 0, 0, 0, 0, 0] = 2 ^ 63 ∧ Fixed.encodeInt 8 (-1) = [255, 255, 255, 255, 255, 255, 255, 255] := by
+  decide
 
 end I2P.Props.C12
